@@ -24,7 +24,7 @@ was kept under `seeded/<id>/` (patch.diff, demo_test.go, meta.json). The checks 
 `VERIF_REPO`); none of these changes is committed in /repo. Where a check missed a change it was strengthened
 (family tokens, drivers, attribution) - never loosened - and the change is caught now; the last column says how.
 
-The rows `R1`-`R8` are the opposite test: substantial *behaviour-preserving* refactorings (parser core
+The rows `R1`-`R12` are the opposite test: substantial *behaviour-preserving* refactorings (parser core
 incl. a hand-written token scanner replacing the regular expressions; option storage and definition functions; the
 DAG runner split into helper methods with every `verifEmit` kept at its program point; Parse / Dispatch / help glue)
 written by sub-agents with the same isolation. Every check that looks at the touched code was run on each: no alarm.
